@@ -55,10 +55,11 @@ def execute(scenario, params, strategy, *, sched_kw=None):
 
 
 def _dfs_job(args):
-    scenario, params, bound, prefix0, max_execs = args
+    scenario, params, bound, stack0, max_execs = args
     uniq = {}
     count = [0]
     bad = []
+    leftover = []
 
     def run_one(prefix):
         st = detsched.PrefixStrategy(prefix)
@@ -78,8 +79,8 @@ def _dfs_job(args):
             rec["n"] = 1
             uniq[k] = rec
 
-    detsched.dfs_explore(run_one, bound, prefix0=prefix0, on_result=on_result, max_execs=max_execs)
-    return count[0], list(uniq.values()), bad[:3]
+    detsched.dfs_explore(run_one, bound, stack0=stack0, on_result=on_result, max_execs=max_execs, leftover=leftover)
+    return count[0], list(uniq.values()), bad[:3], leftover
 
 
 def _rand_job(args):
@@ -119,7 +120,7 @@ class ExploreError(Exception):
 def _merge(results):
     total = 0
     uniq = {}
-    for n, recs, bad in results:
+    for n, recs, bad in [r[:3] for r in results]:
         total += n
         if bad:
             b = bad[0]
@@ -133,23 +134,46 @@ def _merge(results):
     return total, list(uniq.values())
 
 
-def dfs(scenario, params, bound, *, jobs=16, split_depth=3, max_execs_per_job=None):
-    """Exhaustive bounded-preemption enumeration, split over processes.  Returns (executions, unique records)."""
-
-    def run_one(prefix):
-        st = detsched.PrefixStrategy(prefix)
-        rec, s = execute(scenario, params, st)
-        if rec["outcome"] in ("error", "divergence"):
-            raise ExploreError(f"scenario failed in the harness: outcome={rec['outcome']} error={rec['error']}")
-        return st.record, rec
-
-    prefixes = detsched.frontier_prefixes(run_one, bound, split_depth) if jobs > 1 else [[]]
-    args = [(scenario, params, bound, p, max_execs_per_job) for p in prefixes]
-    if jobs > 1 and len(args) > 1:
-        with _CTX.Pool(min(jobs, len(args))) as pool:
-            results = pool.map(_dfs_job, args, chunksize=1)
-    else:
-        results = [_dfs_job(a) for a in args]
+def dfs(scenario, params, bound, *, jobs=16, split_depth=3, max_execs_per_job=None, chunk=250, pool=None):
+    """Exhaustive bounded-preemption enumeration with dynamic work splitting over processes: a job explores at
+    most `chunk` executions of its subtrees and hands the unexplored stack entries back as new jobs.
+    Returns (executions, unique records)."""
+    if jobs <= 1:
+        n, recs, bad, _ = _dfs_job((scenario, params, bound, [[]], None))
+        return _merge([(n, recs, bad)])
+    own = pool is None
+    if own:
+        pool = _CTX.Pool(jobs)
+    try:
+        queue = [[[]]]  # list of stacks
+        pending = []
+        results = []
+        while queue or pending:
+            while queue and len(pending) < 2 * jobs:
+                st = queue.pop()
+                pending.append(pool.apply_async(_dfs_job, ((scenario, params, bound, st, chunk),)))
+            # wait for any
+            done = [p for p in pending if p.ready()]
+            if not done:
+                pending[0].wait(0.05)
+                continue
+            for p in done:
+                pending.remove(p)
+                n, recs, bad, left = p.get()
+                results.append((n, recs, bad))
+                if bad:
+                    break
+                # split leftovers into several jobs to keep all workers busy
+                if left:
+                    k = max(1, min(len(left), jobs))
+                    for i in range(k):
+                        part = left[i::k]
+                        if part:
+                            queue.append(part)
+    finally:
+        if own:
+            pool.terminate()
+            pool.join()
     return _merge(results)
 
 
